@@ -118,6 +118,28 @@ pub(crate) fn c11_stuck_step_returns() {
     vassert!(m.state() == State::Running && maddr(raw_of(&m)) == maddr(raw_of(&before)), "C11.T.term.step-returns-from-unknown-opcode");
 }
 
+/// Long horizon (thorough tier): started INSIDE an instruction, the step must run exactly until the
+/// first edge after which the reference ends it, for instructions of up to 40 edges (every instruction but a long DIV; an edge budget
+/// below the horizon is caught here, a larger one is not: stated limit of T.loop).
+#[cfg(kani)]
+#[kani::proof]
+#[kani::unwind(44)]
+#[kani::stub(crate::machine::raw::RawMachine::trigger_clock_edge, crate::machine::raw::verif_c11r::abstract_edge_long)]
+pub(crate) fn c11_x_loop_logic_long() {
+    let mut m = mk_machine(RawMachine::new(), StepMode::Assembly);
+    set_control(raw_mut_of(&mut m), false, State::Running);
+    unsafe {
+        L_EDGES = 0;
+        L_FIRST_END = 0;
+    }
+    m.trigger_key_clock();
+    let (n, first_end) = unsafe { (L_EDGES, L_FIRST_END) };
+    kani::cover!(n == 39, "pre.long-instruction");
+    kani::assert(n >= 1 && n == first_end, "C11.T.loop.long.exactly-to-the-end-of-the-instruction");
+}
+#[cfg(not(kani))]
+pub(crate) fn c11_x_loop_logic_long() {}
+
 #[cfg(kani)]
 #[kani::proof]
 #[kani::unwind(9)]
@@ -137,4 +159,4 @@ pub(crate) fn c11_loop_logic() {}
 #[cfg(not(kani))]
 pub(crate) fn c11_canary() {}
 
-crate::replay_table!(verif_replay_c11; c11_real_mode_is_one_edge, c11_loop_logic, c11_stuck_is_fixpoint, c11_stuck_step_returns, c11_canary,);
+crate::replay_table!(verif_replay_c11; c11_real_mode_is_one_edge, c11_loop_logic, c11_stuck_is_fixpoint, c11_stuck_step_returns, c11_x_loop_logic_long, c11_canary,);
